@@ -17,15 +17,21 @@ pub struct HRun {
     pub overrun: bool,
 }
 
+/// Controller ids are 1..n in every run as long as no run left a thread behind. A thread that stays
+/// blocked (lost wake-up) or parked (overrun) keeps waiting for a release of *its* id, so later runs
+/// must not reuse it: the id space moves on after such a run.
+static ID_BASE: std::sync::atomic::AtomicU64 = std::sync::atomic::AtomicU64::new(0);
+
 pub fn run_threads(threads: Vec<HThread>, ex: &mut Explorer, max_steps: usize) -> HRun {
     verif::reset_threads();
+    let base = ID_BASE.load(std::sync::atomic::Ordering::SeqCst);
     verif::enable(true);
     let _ = verif::take_events();
     let mut names = Names::default();
     let mut handles = vec![];
     let mut ids = vec![];
     for (i, th) in threads.into_iter().enumerate() {
-        let id = (i + 1) as u64;
+        let id = base + (i + 1) as u64;
         names.who.insert(format!("t{id}"), th.role.clone());
         handles.push((id, th.role.clone(), Some(verif::spawn_controlled(id, th.f))));
         verif::settle(id);
@@ -74,6 +80,8 @@ pub fn run_threads(threads: Vec<HThread>, ex: &mut Explorer, max_steps: usize) -
             if let Some(h) = h.take() {
                 let _ = h.join();
             }
+        } else {
+            ID_BASE.store(base + 1000, std::sync::atomic::Ordering::SeqCst);
         }
         // threads that are stuck or parked stay behind; they hold no locks (points are outside
         // lock regions) and are never released again.
